@@ -280,6 +280,24 @@ def check(ctx):
                     d_arm, f_arm = new[2], new[3]
                     ok_trace = (any(is_call(x, "jax.numpy.var") for x in subterms(d_arm))
                                 and any(is_call(x, "jax.numpy.cov") for x in subterms(f_arm)))
+        if ok_trace:
+            v = st_step[0]
+            old_ss = ("a", ks, "step_size")
+            ok_trace = v[0] == "op" and v[1] == "*" and {v[2], v[3]} == {sq[0], old_ss}
+        hist_guard = ((("cmp", "is", n("history"), c(None)), False),)
+        guarded = [cond for loc, val, _, cond in res.stores
+                   if loc in (("a", ks, "step_size"), ("a", ks, "inverse_mass_matrix"))]
+        ctx.ob("C12.R2", ts, "the matrix and the step size are re-tuned exactly when a "
+                             "history is supplied", len(guarded) == 2
+               and all(tuple(g) == hist_guard for g in guarded),
+               detail=str([[pretty(a)[:40] + "=" + str(p_) for a, p_ in g] for g in guarded]),
+               stmt="slow tuning guard")
+        tf = [t for t, _, cond in res.calls if t[0] == "call"
+              and t[1] == ("a", n("self"), "_tune_fast")]
+        ctx.ob("C12.R2", ts, "_tune_slow ends with the fast tuning step on the same "
+                             "arguments", len(tf) == 1 and tf[0][2][:4] == (
+                                 n("prng_key"), ks, n("model_state"), n("epoch")),
+               detail=short(tf[0], 120) if tf else "", stmt="tune_fast hand-over")
         ctx.ob("C12.R2", ts, "step size is rescaled by sqrt(tr(old)/tr(new)) with sum for "
                              "the diagonal and trace for the dense matrix, selected by the "
                              "same mm_diag flag as the tuner", ok_trace, detail=detail,
@@ -299,6 +317,11 @@ def check(ctx):
             arms = [default[2], default[3]] if default[0] == "phi" else [default]
             ok_init = all(order_of(a) == CANON for a in arms) and user == (
                 "a", n("self"), "initial_inverse_mass_matrix")
+            # the vector goes with the diagonal mode, the square matrix with the dense one
+            ok_init = ok_init and default[0] == "phi" and default[1] == (
+                "a", n("self"), "mm_diag") and is_call(default[2], "jax.numpy.ones_like",
+                                                       "jax.numpy.ones") \
+                and is_call(default[3], "jax.numpy.eye", "jax.numpy.identity")
         ctx.ob("C12.R1", ist, "the initial inverse mass matrix is the identity shaped like "
                               "ravel_pytree(position) unless supplied by the user", ok_init,
                detail=short(imm or ()), stmt="initial inverse mass matrix")
@@ -311,6 +334,37 @@ def check(ctx):
            o in (CANON, SORTED), unproven=o == UNKNOWN,
            detail=f"order {o}: {short(r or ())}", stmt=f"history matrix order {o[0]}")
 
+    for fname, stat, axis_kw, axis_want in (("tune_inv_mm_diag", "var", "axis", c(0)),
+                                            ("tune_inv_mm_full", "cov", "rowvar", c(False))):
+        tfi = repo.func(f"liesel.goose.mm.{fname}")
+        rr_ = evaluate(repo, tfi).ret()
+        stat_calls = sorted({x for x in subterms(rr_ or ()) if is_call(x, f"jax.numpy.{stat}")})
+        h2m_call = ("call", ("g", "liesel.goose.mm._history_to_matrix"), (n("history"),), ())
+        ok_stat = (len(stat_calls) == 1 and stat_calls[0][2][:1] == (h2m_call,)
+                   and kw(stat_calls[0], axis_kw, 1 if stat == "var" else 2) == axis_want
+                   and type(kw(stat_calls[0], axis_kw, 1 if stat == "var" else 2)[1])
+                   is type(axis_want[1]))
+        ctx.ob("C12.R1", tfi, f"{fname}: the sample {'variance' if stat == 'var' else 'covariance'} "
+                              f"is taken over the time axis of the history matrix "
+                              f"({axis_kw}={pretty(axis_want)}; one entry per flat coordinate)",
+               ok_stat, detail=short(stat_calls[0], 120) if stat_calls else short(rr_ or ()),
+               stmt=f"{fname} statistic")
+        # regulariser: a positive constant ADDED (to the diagonal)
+        ok_reg = False
+        if rr_ is not None and rr_[0] == "op" and rr_[1] == "+":
+            cst = [x for x in (rr_[2], rr_[3]) if x[0] == "c"]
+            ok_reg = len(cst) == 1 and isinstance(cst[0][1], (int, float)) and cst[0][1] > 0 \
+                and stat == "var"
+        elif rr_ is not None and rr_[0] == "call" and rr_[1][0] == "a" and rr_[1][2] == "add" \
+                and rr_[1][1][0] == "s" and rr_[1][1][1][0] == "a" and rr_[1][1][1][2] == "at":
+            base, idx_ = rr_[1][1][1][1], rr_[1][1][2]
+            ok_reg = (is_call(idx_, "jax.numpy.diag_indices_from") and idx_[2] == (base,)
+                      and len(rr_[2]) == 1 and rr_[2][0][0] == "c"
+                      and isinstance(rr_[2][0][1], (int, float)) and rr_[2][0][1] > 0)
+        ctx.ob("C12.R1", tfi, f"{fname}: the regulariser is a positive constant added to the "
+                              f"diagonal (keeps the matrix positive definite, moves no entry "
+                              f"to another coordinate)", ok_reg, detail=short(rr_ or (), 160),
+               stmt=f"{fname} regulariser")
     lb = layout_breaks(r) if r is not None else []
     ctx.ob("C12.R1", h2m, "inside a leaf the history matrix keeps the row-major element "
                           "order of ravel_pytree (no axis permutation before a "
